@@ -140,6 +140,35 @@ theorem lll_full_rank_outcome (t : Trace) (lat : Mat4) (h : (toM lat).det ≠ 0)
   · intro hf
     refine ⟨runCols t.ops lat, by simp [hf], lll_ops_preserve_span_cols t.ops hv lat⟩
 
+/-! ### full rank ⇒ never −1  (true of the routine after the SECOND repair, notes/patches/C16-fix-lll-float-zero.diff)
+
+STATE OF THE CODE (repo main with ba3b4ab, second repair not yet committed): the remaining zero test is
+`mpf_get_d(B[k]) == 0.0`; the conversion to double underflows when the exact `B[k] < 2^-1074`, so the full-rank lattice
+with columns (D,1,0,0),(D+1,1,0,0),e2,e3, D = 2^600, is rejected with −1 (finding `lll:full-rank:ret-1:float-underflow`,
+replayed by the harness on every run; `lll_full_rank_outcome` above covers that code: −1 ⇔ the float test fires).
+The repair tests the mpf value itself; its exact counterpart can never fire on a full-rank lattice: -/
+
+/-- in exact arithmetic every Gram-Schmidt norm `|b*_k|²` of a full-rank basis is positive (q > 0) — at every moment
+    of the run, for every valid operation sequence: the zero test has nothing to report once the entry guard passed. -/
+theorem lll_exact_zero_test_never_fires {q : Int} (hq : 0 < q) (ops : List Op) (hv : ∀ op ∈ ops, op.valid = true)
+    (lat : Mat4) (hd : (toM lat).det ≠ 0) : exactZeroTest q (run ops lat.transpose).1 = false :=
+  SqiProofs.LllGuard.exactZeroTest_false hq ops hv lat hd
+
+/-- **full rank ⇒ never −1** for the model of the routine after both repairs (`lllRepaired2`: entry guard, exact zero
+    test at every prefix of the operation list): the result is 0 with `red = runCols ops lattice`
+    (= lattice·Hᵀ, same lattice by `lll_ops_preserve_span_cols`); and rank-deficient ⇒ −1. -/
+theorem lll_full_rank_never_fails {q : Int} (hq : 0 < q) (ops : List Op) (hv : ∀ op ∈ ops, op.valid = true)
+    (lat : Mat4) :
+    ((toM lat).det ≠ 0 → lllRepaired2 q ops lat = (0, some (runCols ops lat))) ∧
+    ((toM lat).det = 0 → lllRepaired2 q ops lat = (-1, none)) :=
+  ⟨SqiProofs.LllGuard.repaired2_of_full_rank hq ops hv lat, SqiProofs.LllGuard.repaired2_of_singular q ops lat⟩
+
+/-- the witness of the finding (scaled down: D = 2^5; the C witness uses D = 2^600): full rank (det = −1), the
+    repaired model returns 0; and the reduced basis the repaired C code returns for it (the identity) is accepted. -/
+example : lllRepaired2 103 [Op.red 1 0 1, Op.swap 1] ⟨⟨32, 33, 0, 0⟩, ⟨1, 1, 0, 0⟩, ⟨0, 0, 1, 0⟩, ⟨0, 0, 0, 1⟩⟩ =
+    (0, some (runCols [Op.red 1 0 1, Op.swap 1] ⟨⟨32, 33, 0, 0⟩, ⟨1, 1, 0, 0⟩, ⟨0, 0, 1, 0⟩, ⟨0, 0, 0, 1⟩⟩)) := by decide
+example : lllCheck 98 100 51 100 103 ⟨⟨32, 33, 0, 0⟩, ⟨1, 1, 0, 0⟩, ⟨0, 0, 1, 0⟩, ⟨0, 0, 0, 1⟩⟩ Mat4.identity = true := by decide
+
 /-- regression (former finding `lll:rank-deficient:ret0`, corpus/C16/singular-ret0.json): q = 1, columns
     (0,3,0,0),(0,1,0,0),(0,4,0,0),(0,0,0,1).  The unrepaired code returned 0 with two zero columns, which the
     post-condition rejects; the repaired model returns -1, which it accepts. -/
